@@ -150,7 +150,34 @@ func (c08) Run(c *fw.Case) {
 	if c.Idx%4 == 3 {
 		draft = gen.D7
 	}
-	if c.Idx%2 == 0 {
+	var fixedInsts []any
+	if c.Idx%11 == 7 {
+		// homogeneous arrays (the representation generator turns them into []string, []int64, [2]float64, []bool ...) under an
+		// items / contains schema that is a bare type test, observed by unevaluatedItems at the same or an enclosing level:
+		// whatever a typed container lets an implementation skip, the items still count as evaluated
+		draft = gen.D2020
+		t := gen.Pick(r, []string{"string", "integer", "number", "boolean"})
+		it := map[string]any{"type": t}
+		un := gen.Pick(r, []any{false, map[string]any{"type": "null"}, map[string]any{"not": map[string]any{}}})
+		doc = gen.Pick(r, []map[string]any{
+			{"items": it, "unevaluatedItems": un},
+			{"allOf": []any{map[string]any{"items": it}}, "unevaluatedItems": un},
+			{"prefixItems": []any{it}, "items": it, "unevaluatedItems": un},
+			{"$ref": "#/$defs/a", "unevaluatedItems": un, "$defs": map[string]any{"a": map[string]any{"items": it}}},
+			{"contains": it, "unevaluatedItems": un},
+			{"if": map[string]any{"items": it}, "then": true, "unevaluatedItems": un},
+			{"properties": map[string]any{"a": map[string]any{"anyOf": []any{map[string]any{"items": it}}, "unevaluatedItems": un}}},
+		})
+		vals := map[string][]any{"string": {"a", "b", ""}, "integer": {json.Number("1"), json.Number("-2"), json.Number("0")}, "number": {json.Number("1.5"), json.Number("2"), json.Number("-0.25")}, "boolean": {true, false}}[t]
+		for n := 0; n <= 3; n++ {
+			a := make([]any, n)
+			for i := range a {
+				a[i] = gen.Pick(r, vals)
+			}
+			fixedInsts = append(fixedInsts, a, map[string]any{"a": gen.Clone(a)})
+		}
+		fixedInsts = append(fixedInsts, []any{gen.Pick(r, vals), nil}, []any{"x", json.Number("1")})
+	} else if c.Idx%2 == 0 {
 		doc = focusedSchema(c)
 	} else {
 		doc = gen.Schema(r, gen.SchemaOpts{Draft: draft, MaxDepth: 3, Refs: r.IntN(2) == 0, Uneval: true})
@@ -170,6 +197,9 @@ func (c08) Run(c *fw.Case) {
 	kws := map[string]bool{}
 	keywordSet(doc, kws, 0)
 	insts := gen.Instances(r, doc, 6, false)
+	if fixedInsts != nil {
+		insts = fixedInsts
+	}
 	// typed integers beyond 2^53 for numeric-bound schemas
 	if r.IntN(4) == 0 {
 		insts = append(insts, json.Number(gen.Pick(r, gen.BigInts)), []any{json.Number(gen.Pick(r, gen.BigInts)), json.Number("1")})
